@@ -6,6 +6,7 @@ import (
 
 	"github.com/refraction-networking/uquic/internal/utils"
 	"github.com/refraction-networking/uquic/internal/utils/ringbuffer"
+	"github.com/refraction-networking/uquic/internal/verifhook"
 	"github.com/refraction-networking/uquic/internal/wire"
 )
 
@@ -120,6 +121,7 @@ func (h *datagramQueue) Receive(ctx context.Context) ([]byte, error) {
 			return data, nil
 		}
 		h.rcvMx.Unlock()
+		verifhook.Point("datagramQueue.receive.beforeWait")
 		select {
 		case <-h.rcvd:
 			continue
